@@ -4,9 +4,11 @@ CONSTANTS
   MaxVotes = 10000
   MaxParts = 1601
   Weak_BitArrayOpsAssumeEqualSize = FALSE
-  Weak_LastCommitNilDeref = FALSE
+  Weak_LastCommitNilDeref = TRUE
   Weak_SetRoundRecreatesRound = FALSE
-INIT TInit
-NEXT TNext
-INVARIANTS TargetedNoCrash TargetedNoHalt
+  MaxMsgs = 3
+INIT GInit
+NEXT GNext
+INVARIANTS NeverCrashes NeverHalts StoredSizesBounded
+VIEW GView
 CHECK_DEADLOCK FALSE
